@@ -57,6 +57,7 @@ def replay_b2(rp, mons):
     for m in mons:
         bad += monitors.MONITORS[m](rp["spec"], run)
     print("monitors:", bad)
-    lines, _ = render.render(run.trace, log_size=rp["spec"].get("log_size", 0), hidden=["clock"], end_t=run.now)
-    print("acceptor:", core.run_driver("accept", lines))
+    if rp["spec"].get("kind", "conn") == "conn" and not rp["spec"].get("stall"):
+        lines, _ = render.render(run.trace, log_size=rp["spec"].get("log_size", 0), hidden=["clock"], end_t=run.now)
+        print("acceptor:", core.run_driver("accept", lines))
     return 1 if bad else 0
